@@ -375,3 +375,33 @@ func vc_C17_arc_count() {
 		vfAssert(vfAnd(vfAnd(out[0].X == a.X, out[0].Y == a.Y), vfAnd(out[facets].X == b.X, out[facets].Y == b.Y)), "the arc's endpoints are the segment's endpoints")
 	}
 }
+
+// A polyline of straight spans with a repeated end point (a zero-length span)
+// is reproduced exactly: a, b, b, c gives the three vertices a, b, c (the
+// repeated point is a point, not a curve).
+func vc_C17_bezier_repeated_endpoint() {
+	vfTimeouts(3000, 15000)
+	a, b, c := vfPoint2("a"), vfPoint2("b"), vfPoint2("c")
+	d1, d2 := b.Sub(a), c.Sub(b)
+	vfAssume(d1.X*d1.X+d1.Y*d1.Y >= 0.01)
+	vfAssume(d2.X*d2.X+d2.Y*d2.Y >= 0.01)
+	bz := NewBezier()
+	bz.AddV2(a)
+	bz.AddV2(b)
+	bz.AddV2(b)
+	bz.AddV2(c)
+	p, err := bz.Polygon()
+	vfAssume(err == nil)
+	vs := p.Vertices()
+	vfReach("repeated endpoint")
+	vfAssert(len(vs) == 3, "straight spans a-b, b-b, b-c yield the three vertices a, b, c")
+	if len(vs) == 3 {
+		tol := vfTol(1e-7, 1e-6)
+		near := func(p, q v2.Vec) bool {
+			return vfAnd(vfAnd(p.X-q.X <= tol, q.X-p.X <= tol), vfAnd(p.Y-q.Y <= tol, q.Y-p.Y <= tol))
+		}
+		vfAssert(near(vs[0], a), "the polyline starts at the first control point")
+		vfAssert(near(vs[1], b), "the repeated end point appears once")
+		vfAssert(near(vs[2], c), "the polyline ends at the last control point")
+	}
+}
